@@ -125,6 +125,16 @@ def fixed_cases():
             for d in (1, 2, 3, 4):
                 yield {'v': ['call', fn, [[kind, 'c', nested]], []], 'width': 79, 'ribbon': 79, 'indent': 4, 'depth': d}
                 yield {'v': ['list', [['call', fn, [[kind, 'c', ['dict', [[['str', 'k'], nested]]]]], []]]], 'width': 30, 'ribbon': 30, 'indent': 4, 'depth': d}
+    # comments on the values held by standard-library containers
+    c1 = ['cmt', 'first value', ['list', [['int', 1], ['int', 2]]]]
+    c2 = ['tcmt', 'trailing on a list', ['list', [['int', 3]]]]
+    c3 = ['cmt', 'a scalar', ['int', 4]]
+    for w in (79, 16):
+        for node in (['call', 'deque', [c1, c3, c2], []], ['call', 'odict', [], [['a', c1], ['b', c3]]], ['call', 'ddict', [], [['a', c2], ['b', c1]]],
+                     ['call', 'mproxy', [], [['a', c3], ['b', c2]]], ['call', 'chainmap', [], [['a', c1], ['b', c3]]], ['call', 'exc', [c3, c1], []]):
+            yield {'v': node, 'width': w, 'ribbon': w, 'indent': 4}
+            yield {'v': ['list', [['cmt', 'on the container', node], ['int', 0]]], 'width': w, 'ribbon': w, 'indent': 4}
+            yield {'v': ['dict', [[['str', 'k'], ['cmt', 'as a dict value', node]]]], 'width': w, 'ribbon': w, 'indent': 2, 'sort': True}
     # namedtuples / SimpleNamespaces carrying a trailing comment themselves (and commented fields)
     for w in (79, 15):
         for kind in ('nt', 'ns'):
@@ -198,6 +208,11 @@ def strategy(tier):
             st.tuples(st.sampled_from(['box', 'alt']), st.lists(ch, max_size=3),
                       st.lists(st.tuples(st.sampled_from(['a', 'b', 'kw']), ch).map(list), max_size=2, unique_by=lambda p: p[0])).map(
                 lambda p: ['call', p[0], p[1], p[2]]),
+            # standard-library containers and call-like values holding (possibly commented) values
+            st.lists(ch, max_size=3).map(lambda xs: ['call', 'deque', xs, []]),
+            st.lists(ch, max_size=2).map(lambda xs: ['call', 'exc', xs, []]),
+            st.tuples(st.sampled_from(['odict', 'ddict', 'mproxy', 'chainmap']), st.lists(ch, max_size=3)).map(
+                lambda p: ['call', p[0], [], [[n, x] for n, x in zip(['a', 'b', 'kw'], p[1])]]),
             # namedtuples and SimpleNamespaces (printed as calls with keyword arguments; their printers take a trailing comment)
             st.tuples(ch, ch).map(lambda p: ['call', 'nt', [], [['a', p[0]], ['b', p[1]]]]),
             st.lists(ch, max_size=2).map(lambda xs: ['call', 'ns', [], [[n, x] for n, x in zip(['a', 'b'], xs)]]),
@@ -287,6 +302,45 @@ def canon_dump(text):
     return ast.dump(_Canon().visit(tree))
 
 
+def _comment_inside_key(r):
+    t = r[0]
+    if t in ('cmt', 'tcmt'):
+        return _comment_inside_key(r[2])
+    if t == 'dict':
+        for k, v in r[1]:
+            kk = k
+            while kk[0] in ('cmt', 'tcmt'):
+                kk = kk[2]
+            if '"cmt"' in core.canonical(kk) or '"tcmt"' in core.canonical(kk):
+                return True
+            if _comment_inside_key(kk) or _comment_inside_key(v):
+                return True
+        return False
+    if t in ('list', 'tuple', 'set', 'fset'):
+        return any(_comment_inside_key(x) for x in r[1])
+    if t == 'sub':
+        return _comment_inside_key(r[3])
+    if t == 'call':
+        return any(_comment_inside_key(a) for a in r[2]) or any(_comment_inside_key(a) for _, a in r[3])
+    return False
+
+
+def _std_children(v):
+    import collections
+    import functools
+    if isinstance(v, collections.deque):
+        return list(v)
+    if isinstance(v, _types.MappingProxyType):
+        return list(v.values())
+    if isinstance(v, collections.ChainMap):
+        return [x for m in v.maps for x in m.values()]
+    if isinstance(v, BaseException):
+        return list(v.args)
+    if isinstance(v, functools.partial):
+        return list(v.args) + list(v.keywords.values())
+    return None
+
+
 def _keys_comparable(v):
     from .. import eqv
     if isinstance(v, dict):
@@ -300,6 +354,9 @@ def _keys_comparable(v):
         return all(_keys_comparable(x) for x in v.args) and all(_keys_comparable(x) for x in v.kwargs.values())
     if isinstance(v, _types.SimpleNamespace):
         return all(_keys_comparable(x) for x in v.__dict__.values())
+    kids = _std_children(v)
+    if kids is not None:
+        return all(_keys_comparable(x) for x in kids)
     return True
 
 
@@ -314,6 +371,9 @@ def n_entries(v):
         return sum(n_entries(x) for x in v.args) + sum(n_entries(x) for x in v.kwargs.values())
     if isinstance(v, _types.SimpleNamespace):
         return sum(n_entries(x) for x in v.__dict__.values())
+    kids = _std_children(v)
+    if kids is not None:
+        return sum(n_entries(x) for x in kids)
     return 0
 
 
@@ -348,6 +408,10 @@ def oracle(case):
         return core.skip('key-collision')
     if case.get('sort') and not _keys_comparable(plain):
         return core.skip('sorted-keys-not-comparable')      # the order of keys that cannot be compared is address-based
+    if case.get('sort') and _comment_inside_key(r):
+        # a comment object INSIDE a tuple / frozenset key makes that key incomparable with the others (the comment on the
+        # key itself is looked through since D34): left alone, see DESIGN
+        return core.skip('sorted-key-holds-comment-inside')
     if case.get('depth') is not None and _commented_str_key(r):
         # a str/bytes dict key is printed in the dict's own context on purpose (it is not a nesting level);
         # a commented one goes through the generic path - whether it counts as a level is left open (C11 tolerance 1)
